@@ -166,6 +166,9 @@ theorem vinv_step {I : Int → Int} {T : Int → Int → Option Int} {st : State
     | xfer a b amt =>
       obtain ⟨_, _, rfl⟩ := doXfer_ok h
       exact hv.vest
+    | chown a b =>
+      obtain ⟨_, _, rfl⟩ := doChown_ok h
+      exact hv.vest
 
 theorem inv_vinv_run {I : Int → Int} {T : Int → Int → Option Int} (ops : List Op) :
     ∀ st, Inv st → VInv st → Inv (run I T st ops) ∧ VInv (run I T st ops) := by
